@@ -600,3 +600,96 @@ CONCRETE["e2e:roland_pairs"] = {
              "appears in exactly one channel, pairs as one two-channel file (L in channel 0) named after the stem",
     "timeout_s": 60.0, "budget_quick": 100, "budget_thorough": 200,
 }
+
+
+# ================================================================================== C10 on whole trees: AKAI (two partitions), Roland, CDDA
+def _build_tree(inputs):
+    L = _lib()
+    from contracts.e2e import expand_roland, expand_akai, _rsample, _sample, _vol
+
+    def run():
+        with L.Workdir() as w:
+            if inputs["kind"] == "roland":
+                perfs = inputs["performances"]
+                model = {"fat_version": 1, "disk_name": "D",
+                         "volumes": [{"name": inputs.get("volume", "VOL+1."), "performances": list(range(len(perfs) - 1))}],
+                         "performances": [{"name": n, "patches": [0]} for n in perfs], "patches": [{"name": "PA", "partials": [0]}],
+                         "partials": [{"name": "PT", "samples": [0, 1]}], "samples": [_rsample(inputs.get("sample", "SMP: 1"), 40, 5), _rsample("B", 30, 6)]}
+                img = w.file("img.s7xx", L.rw.build_roland_image(expand_roland(model)))
+            elif inputs["kind"] == "akai":
+                model = {"partitions": [{"volumes": [_vol(v, [_sample(f, 20, 300 + i) for i, f in enumerate(inputs["files"])]) for v in inputs["volumes"]]},
+                                        {"volumes": [_vol(inputs["volumes"][0], [_sample("ONLY", 10, 399)])]}]}
+                img = w.file("img.akai", L.aw.build_akai_image(expand_akai(model)))
+            else:
+                tracks = [{"number": i + 1, "mode": "AUDIO", "title": t, "indices": [(1, 0, 0, 2 * i)]} for i, t in enumerate(inputs["titles"])]
+                img = L.cw.write_bin_cue(w.sub("cd"), L.pcm_words(9, 2352 * len(tracks) + 4), L.cw.build_cue(tracks))
+            nodes, todo, seen = [], [("", None)], 0
+            while todo and seen < 60:
+                path, _ = todo.pop(0)
+                seen += 1
+                o, e = L.do_ls(img, path)
+                rec = {"path": path, "error": type(e).__name__ if e else None, "not_found": "was not found" in o, "names": None}
+                first = o.splitlines()[0] if o.splitlines() else ""
+                if e is None and "Item" in first and "Type" in first:
+                    rec["names"] = L.ls_table_names(o)
+                    for nm in rec["names"]:
+                        if nm.strip():
+                            todo.append(((path + "/" if path else "") + nm, path))
+                nodes.append(rec)
+            junk = []
+            for j in inputs.get("junk", []):
+                o, e = L.do_ls(img, j)
+                junk.append({"path": j, "error": type(e).__name__ if e else None, "not_found": "was not found" in o})
+            return {"nodes": nodes, "junk": junk}
+    return {"call": run, "env": {}}
+
+
+def _oracle_tree(inputs, kind, val, env):
+    if kind != "return":
+        return []
+    bad = []
+    for n in val["nodes"]:
+        if n["error"]:
+            bad.append(f"C10.no-unhandled-exception({n['path']!r}: {n['error']})")
+        elif n["not_found"]:
+            bad.append(f"C10.listed-name-resolves({n['path']!r})")
+        if n["names"] is not None and len(set(n["names"])) != len(n["names"]):
+            bad.append(f"C10.sibling-names-distinct({n['path']!r}: {n['names']})")
+    if len(val["nodes"]) < inputs.get("min_nodes", 3):
+        bad.append(f"C10.tree-was-walked(only {len(val['nodes'])} nodes)")
+    for j in val["junk"]:
+        if j["error"]:
+            bad.append(f"C10.no-unhandled-exception({j['path']!r}: {j['error']})")
+        elif not j["not_found"]:
+            bad.append(f"C10.other-paths-say-not-found({j['path']!r})")
+    return bad[:6]
+
+
+def _small_tree(tier, seed, shard=(0, 1)):
+    junk = ["zz", "VOL+1./zz", "x/y/z/w/v", "%s", "A:/nope", "T9", "//", "\\\\", "VOL 1/P1/SMP 1/x"]
+    cases = [
+        {"kind": "roland", "performances": ["P1", "P1", "STR+BRASS.", "ORPHAN"], "junk": junk, "min_nodes": 8},
+        {"kind": "roland", "performances": ["A/B", "A\\\\B", "..", "LAST"], "volume": "V:1", "sample": "S/1", "junk": junk, "min_nodes": 8},
+        {"kind": "roland", "performances": ["  LEAD", "TRAIL  ", "MID  DLE", "O"], "junk": junk, "min_nodes": 8},
+        {"kind": "akai", "volumes": ["DRUMS 1", "DRUMS 1", "FX+PADS"], "files": ["KICK", "KICK", "SN.1", "#1"], "junk": junk, "min_nodes": 12},
+        {"kind": "akai", "volumes": ["A.", "A..", "+A"], "files": ["L", "R", "-L"], "junk": junk, "min_nodes": 10},
+        {"kind": "cdda", "titles": ["Intro", "Intro", "a/b", "c\\\\d", "..", " x "], "junk": junk, "min_nodes": 6},
+    ]
+    for k, c in enumerate(cases):
+        if k % shard[1] == shard[0]:
+            yield c
+
+
+@contract("e2e:trees", props=["C10"], abstract=True)
+def _tr(c):
+    pass
+
+
+CONCRETE["e2e:trees"] = {
+    "build": _build_tree, "small": _small_tree, "oracle": _oracle_tree,
+    "nontrivial": lambda i, s: s["kind"] == "return",
+    "bound": "6 whole trees (3 Roland images incl. orphaned performances and names with separators / blanks / dots, 2 two-partition AKAI images with duplicate and "
+             "unsafe volume and file names, 1 bin/cue image): EVERY node reachable through printed names is listed, every printed name resolves, sibling names are "
+             "distinct at every level, 9 foreign paths say `was not found`",
+    "timeout_s": 120.0, "budget_quick": 150, "budget_thorough": 300,
+}
